@@ -26,7 +26,7 @@ def DoneOK (cfg : Config) (threads : List Thread) (th : Thread) (o : Out) : Prop
   ∨ (o = passThrough .unreachable th.req.resp ∧ th.ran = true ∧ cfg.disabled = false ∧
        hasDirective th.req.cc Facts.noStore = false)
   ∨ (o = passThrough .absent th.req.resp ∧ th.ran = true ∧
-       (cfg.disabled = true ∨ hasDirective th.req.cc Facts.noStore = true))
+       (cfg.disabled = true ∨ hasDirective th.req.cc Facts.noStore = true ∨ (th.req.err = true ∧ Admitted cfg th.req)))
 
 /-- what a thread at each program point has established -/
 def ThOK (cfg : Config) (threads : List Thread) (th : Thread) : Prop :=
@@ -229,7 +229,8 @@ theorem step_inv {cfg : Config} (hmb : cfg.maxBytes < 2 ^ 63) {g g' : G} (hi : I
       simp only [ThOK]
       refine ⟨_, rfl, ?_⟩
       rcases hth.2.2 with ⟨hx, hd⟩ | ⟨hx, hd1, hd2⟩
-      · subst hx; exact Or.inr (Or.inr (Or.inr ⟨rfl, rfl, hd⟩))
+      · subst hx
+        exact Or.inr (Or.inr (Or.inr ⟨rfl, rfl, by rcases hd with h | h; exact Or.inl h; exact Or.inr (Or.inl h)⟩))
       · subst hx; exact Or.inr (Or.inr (Or.inl ⟨rfl, rfl, hd1, hd2⟩))
     | wantLock1 =>
       rw [hpc] at hs hth
@@ -262,10 +263,15 @@ theorem step_inv {cfg : Config} (hmb : cfg.maxBytes < 2 ^ 63) {g g' : G} (hi : I
     | next =>
       rw [hpc] at hs hth
       simp only at hs hth
-      cases hs
       have hnd : th.pc ≠ .done := by rw [hpc]; simp
       have hns : ¬ (th.pc = .sec1 ∨ th.pc = .sec2) := by rw [hpc]; simp
-      exact inv_local hi ht hnd hns (by simp) (by simp [ThOK, hth.1, hth.2.2])
+      by_cases he : th.req.err = true
+      · rw [if_pos he] at hs; cases hs
+        apply inv_local hi ht hnd hns (by simp)
+        simp only [ThOK]
+        exact ⟨_, rfl, Or.inr (Or.inr (Or.inr ⟨rfl, rfl, Or.inr (Or.inr ⟨he, hth.2.2⟩)⟩))⟩
+      · rw [if_neg he] at hs; cases hs
+        exact inv_local hi ht hnd hns (by simp) (by simp [ThOK, hth.1, hth.2.2])
     | afterNext =>
       rw [hpc] at hs hth
       simp only at hs hth
